@@ -11,6 +11,15 @@ lists of ints.  Nothing in the oracle imports or introspects the library.
              single bytes >= 0x80 at every position, and non-ASCII TEXT - well-formed UTF-8
              characters of 2, 3 and 4 bytes (and UTF-16/Latin-1/double-byte ones, and ill-formed
              look-alikes) at every position, full field / directly before / behind the NUL.
+             Every byte string is decoded through from_list from the bank image held as a list, tuple, bytes,
+             bytearray, a list with None at every location that is not the value's own, images that end right
+             behind the value or are longer than a bank (all forms for generated cases and replays, taking turns
+             in the enumerations); all must give the reference's result and leave the caller's object unchanged.
+(d) history  fresh interpreters in which a program declares its own banks and values of every width 1..8
+             (NumericValue signed/unsigned, energy.ScaledNumericValue; with/without MASK/TMASK support) before,
+             between and after importing the library's bank modules in several orders: afterwards every library
+             value decodes the boundary probes exactly as in-process (everything imported first), and the program's
+             own values decode per the reference for their declared width/flags.
 (b) inverse  raw_to_value(value_to_raw(x)) == x for plain numbers (table kind "uint"/"cct")
              over all in-range numbers (<= 2 bytes) or a sample, and for strings of every
              length 0..len.
@@ -35,7 +44,10 @@ RULE = ("(class, raw) pairs: complete enumeration of all byte strings for every 
         "= the reference result is a flag, or the number lies on an edge of its valid range, or the scale "
         "byte is at the edge of its window, or a string contains NUL / non-ASCII bytes, or it is a special "
         "code (CCT 0xFFFE, version 0xFF); inverse: (class, in-range number) and (class, ASCII string) pairs; "
-        "layout: one case per table row and per bank object plus generated 255-byte bank images")
+        "layout: one case per table row and per bank object plus generated 255-byte bank images; every decode case "
+        "x the form the bank image is handed over in (list / tuple / bytes / bytearray / None elsewhere / shorter / "
+        "longer); history: (declaration/import history in a fresh interpreter, value class, boundary byte string), "
+        "non-trivial = the reference says MASK or TMASK")
 ASSUMPTIONS = [
     "memory map and decoding rules are my hand transcription of IEC 62386-102 9.10.6/9.10.7 and DiiA "
     "251/252/253 (harness/ref_memory.py); the texts are not in the sandbox - rows marked 'pinned' or with "
@@ -50,6 +62,14 @@ ASSUMPTIONS = [
     "subclass); in-range = within min/max and below the MASK/TMASK patterns",
     "string inverse is checked both directly on value_to_raw's bytes and after storing those bytes over a "
     "field previously filled with 0xFF / 'Z' (a short write leaves the tail untouched)",
+    "from_list accepts the bank contents as any sequence indexable by location address (list, tuple, bytes, "
+    "bytearray), with None at locations that do not belong to the value, ending anywhere behind the value's last "
+    "location or longer than 255 entries - all of which the library accepts today; what it does when one of the "
+    "value's OWN locations is None or missing is not judged",
+    "declaration histories: a program may declare banks and values of its own with MemoryBank, MemoryRange / "
+    "MemoryLocation, NumericValue and dali.memory.energy.ScaledNumericValue and the class attributes the library's own "
+    "modules use (bank, locations, signed, mask_supported, tmask_supported, max_value, unit), at any point relative to "
+    "importing the library's bank modules; bank numbers 100..129 are the program's",
     "signed MASK/TMASK patterns are exercised on values declared by the check itself (the library declares "
     "no signed value), using only the public declaration mechanism",
 ]
@@ -200,7 +220,46 @@ def _hex(raw):
 
 
 # ---------------------------------------------------------------- (a) decode ----
-def _check_decode(cls, row, raw):
+# The same bank image in the forms a program may hold it in.  from_list() documents "a list containing all values of
+# the memory bank"; read_all() itself hands over a list with None for unanswered locations that may end at the
+# bank's last location.  Every form below is accepted by the library for every value (indexing by address).
+FORMS = ("list", "tuple", "bytes", "bytearray", "list-none-elsewhere", "list-ends-at-value", "bytes-ends-at-value",
+         "list-300", "tuple-none-elsewhere-ends-at-value", "bytearray-256")
+_MUTABLE_FORMS = ("list", "bytearray", "list-none-elsewhere", "list-ends-at-value", "list-300", "bytearray-256")
+
+
+def _spell(form, img, cls):
+    """`img`: list of 255 ints.  The same bank contents as another kind of sequence."""
+    if form == "list":
+        return img
+    if form == "tuple":
+        return tuple(img)
+    if form == "bytes":
+        return bytes(img)
+    if form == "bytearray":
+        return bytearray(img)
+    if form == "bytearray-256":
+        return bytearray(img) + b"\x5a"
+    if form == "list-300":
+        return list(img) + [0xA5] * 45
+    addrs = [l.address for l in cls.locations]
+    end = max(addrs) + 1
+    if form == "list-ends-at-value":
+        return img[:end]
+    if form == "bytes-ends-at-value":
+        return bytes(img[:end])
+    n = len(img) if form == "list-none-elsewhere" else end
+    sparse = [None] * n
+    for a in addrs:
+        sparse[a] = img[a]
+    if form == "list-none-elsewhere":
+        return sparse
+    if form == "tuple-none-elsewhere-ends-at-value":
+        return tuple(sparse)
+    raise ValueError(form)
+
+
+def _check_decode(cls, row, raw, forms=FORMS):
     """raw: bytes of the row's width.  Returns [(sig, msg)]."""
     name = cls.__name__
     out = []
@@ -208,19 +267,23 @@ def _check_decode(cls, row, raw):
     img = [0] * 255
     for loc, b in zip(cls.locations, raw):
         img[loc.address] = b
-    before = list(img)
-    try:
-        got = _tag(cls.from_list(img))
-    except Exception as e:  # noqa
-        out.append(("C11:decode-raised:" + name, "%s.from_list with raw [%s] raised %r; reference: %r"
-                    % (name, _hex(raw), e, ref[1])))
-    else:
-        if img != before:
+    for form in forms:
+        given = _spell(form, img, cls)
+        before = given[:] if form in _MUTABLE_FORMS else given
+        try:
+            got = _tag(cls.from_list(given))
+        except Exception as e:  # noqa
+            out.append(("C11:decode-raised:" + name, "%s.from_list with raw [%s] (bank image given as %s) raised %r; "
+                        "reference: %r" % (name, _hex(raw), form, e, ref[1])))
+            break
+        if given != before:
             out.append(("C11:decode-modified-callers-image:" + name, "%s.from_list with raw [%s] changed the bank image "
-                        "it was given" % (name, _hex(raw))))
+                        "it was given (%s)" % (name, _hex(raw), form)))
+            break
         if not _accept(got, ref, row, raw):
-            out.append((_classify(name, got, ref), "%s.from_list with raw [%s] gave %r, reference says %r"
-                        % (name, _hex(raw), got[1], ref[1])))
+            out.append((_classify(name, got, ref), "%s.from_list with raw [%s] (bank image given as %s) gave %r, "
+                        "reference says %r" % (name, _hex(raw), form, got[1], ref[1])))
+            break
     try:
         f = cls.check_raw(raw)
     except Exception as e:  # noqa
@@ -540,6 +603,8 @@ def _check_bank(bk):
 def _check_image(bk, image):
     L = _lib()
     out = []
+    nf = len(FORMS)
+    k = image[0] + image[-1]        # which three spellings of the image each value is decoded from
     for key, cls in L["classes"].items():
         row = RM.BY_KEY.get(key)
         if row is None or row["bankobj"] != bk:
@@ -547,19 +612,23 @@ def _check_image(bk, image):
         name = cls.__name__
         raw = bytes(image[row["first"]:row["last"] + 1])
         ref = RM.decode_tagged(row, raw)
-        try:
-            got = _tag(cls.from_list(image))
-        except Exception as e:  # noqa
-            out.append(("C11:decode-raised:" + name, "%s.from_list(bank image) raised %r; table bytes [%s], reference %r"
-                        % (name, e, _hex(raw), ref[1])))
-            continue
-        if not _accept(got, ref, row, raw):
-            if [l.address for l in cls.locations] != list(range(row["first"], row["last"] + 1)):
-                sig = "C11:layout:" + name
-            else:
-                sig = _classify(name, got, ref)
-            out.append((sig, "%s.from_list(bank image) gave %r; the bytes at the table's locations %#04x..%#04x are "
-                        "[%s] = %r" % (name, got[1], row["first"], row["last"], _hex(raw), ref[1])))
+        k += 1
+        for form in (FORMS[k % nf], FORMS[(k + 3) % nf], FORMS[(k + 7) % nf]):
+            try:
+                got = _tag(cls.from_list(_spell(form, image, cls)))
+            except Exception as e:  # noqa
+                out.append(("C11:decode-raised:" + name, "%s.from_list(bank image as %s) raised %r; table bytes [%s], "
+                            "reference %r" % (name, form, e, _hex(raw), ref[1])))
+                break
+            if not _accept(got, ref, row, raw):
+                if [l.address for l in cls.locations] != list(range(row["first"], row["last"] + 1)):
+                    sig = "C11:layout:" + name
+                else:
+                    sig = _classify(name, got, ref)
+                out.append((sig, "%s.from_list(bank image as %s) gave %r; the bytes at the table's locations "
+                            "%#04x..%#04x are [%s] = %r" % (name, form, got[1], row["first"], row["last"], _hex(raw),
+                                                             ref[1])))
+                break
     return out
 
 
@@ -576,6 +645,237 @@ def _check_total(key, raw):
     except Exception as e:  # noqa
         return [("C11:decode-raised:" + cls.__name__, "%s.from_list with raw [%s] raised %r" % (cls.__name__, _hex(raw), e))]
     return []
+
+
+# ------------------------------------------- (d) declaration / import histories ----
+# The MASK/TMASK patterns are "computed per class at declaration time": what a value class decodes must depend on its
+# own declaration only, not on which other values - the library's own or a program's - were declared before it.
+# A history is a list of steps run in a FRESH interpreter:
+#   ["import", module]            import one of the library's bank modules
+#   ["declare", group, order]     the program declares its own banks and values with the public classes, the way
+#                                 dali/memory/*.py do (MemoryBank, NumericValue, energy.ScaledNumericValue, MemoryRange)
+# afterwards everything else is imported and every value class decodes the probe set.
+LIB_MODULES = ("dali.memory.info", "dali.memory.oem", "dali.memory.energy", "dali.memory.diagnostics",
+               "dali.memory.maintenance")
+USER_GROUPS = ("plain-unsigned", "plain-signed", "scaled")
+_FLAGCOMBOS = ((True, True), (False, True), (True, False), (False, False))
+
+
+def user_specs(group):
+    """[(class name, row)] of the values of one group: every width 1..8 (scaled: 2..8) x MASK/TMASK support."""
+    out = []
+    gi = USER_GROUPS.index(group)
+    signed = group == "plain-signed"
+    for ci, (mask, tmask) in enumerate(_FLAGCOMBOS):
+        bankno = 100 + 10 * gi + ci
+        addr = 0x03
+        for w in range(2 if group == "scaled" else 1, 9):
+            nb = w - 1 if group == "scaled" else w           # bytes that hold the number
+            top = (1 << (8 * nb - 1)) - 1 if signed else (1 << (8 * nb)) - 1
+            hi = top - 2 if (tmask and not mask) else None   # like DiiA 252: TMASK supported, largest number below it
+            name = "User%s%s%s%dB" % ({"plain-unsigned": "U", "plain-signed": "S", "scaled": "Scaled"}[group],
+                                      "M" if mask else "", "T" if tmask else "", w)
+            row = dict(key="USER." + name, cls=name, module="__main__", bankobj="USER%d" % bankno, bank=bankno,
+                       first=addr, last=addr + w - 1, width=w, memtype=("NVM_RO",) * w,
+                       kind="scaled" if group == "scaled" else "uint", signed=signed, mask=mask, tmask=tmask,
+                       min=None, max=hi, exp10=None, trust="independent", pinned_fields=())
+            out.append((name, row))
+            addr += w
+    return out
+
+
+def _declare(group, order):
+    """Runs in the fresh interpreter: declare the group's banks and values.  -> {name: class}"""
+    from dali.memory.location import MemoryBank, MemoryLocation, MemoryRange, MemoryType, NumericValue
+    if group == "scaled":
+        from dali.memory.energy import ScaledNumericValue as base
+    else:
+        base = NumericValue
+    specs = user_specs(group)
+    if order == "down":
+        specs = specs[::-1]
+    banks, classes = {}, {}
+    for name, row in specs:
+        if row["bank"] not in banks:
+            banks[row["bank"]] = MemoryBank(row["bank"], 0x40, has_latch=True)
+        if group == "scaled":
+            locs = (MemoryLocation(address=row["first"], type_=MemoryType.ROM),) + \
+                MemoryRange(start=row["first"] + 1, end=row["last"], type_=MemoryType.NVM_RO)
+        else:
+            locs = MemoryRange(start=row["first"], end=row["last"], type_=MemoryType.NVM_RO)
+        attrs = dict(bank=banks[row["bank"]], locations=locs, unit="x")
+        if row["signed"]:
+            attrs["signed"] = True
+        if row["mask"]:
+            attrs["mask_supported"] = True
+        if row["tmask"]:
+            attrs["tmask_supported"] = True
+        if row["max"] is not None:
+            attrs["max_value"] = row["max"]
+        classes[name] = type(name, (base,), attrs)
+    return classes
+
+
+def history_probes(row):
+    """The boundary byte strings decoded at the end of a history (all-ones, all-ones-1, range edges, sign
+    boundaries, scale-byte window edges)."""
+    return image_choices(row)
+
+
+def _enc(tagged):
+    if tagged[0] != "value":
+        return [tagged[0], tagged[1]]
+    return ["value", type(tagged[1]).__name__, str(tagged[1])]
+
+
+def _dec(e):
+    if e[0] != "value":
+        return (e[0], e[1])
+    t, v = e[1], e[2]
+    if t == "int":
+        return ("value", int(v))
+    if t == "Decimal":
+        from decimal import Decimal
+        return ("value", Decimal(v))
+    if t == "str":
+        return ("value", v)
+    if t == "bool":
+        return ("value", v == "True")
+    return ("value", ("unexpected type", t, v))
+
+
+def _decode_enc(cls, raw):
+    img = [0] * 255
+    for loc, b in zip(cls.locations, raw):
+        img[loc.address] = b
+    try:
+        return _enc(_tag(cls.from_list(img)))
+    except Exception as e:  # noqa: reported by the parent
+        return ["raised", "%s: %s" % (type(e).__name__, e)]
+
+
+def _probe_library():
+    out = {}
+    for key, cls in _lib()["classes"].items():
+        row = RM.BY_KEY.get(key)
+        if row is None or len(cls.locations) != row["width"]:
+            continue
+        out[key] = [_decode_enc(cls, raw) for raw in history_probes(row)]
+    return out
+
+
+def history_main(steps):
+    """Runs in a fresh interpreter (see __main__)."""
+    import importlib
+    declared = {}
+    for step in steps:
+        if step[0] == "import":
+            importlib.import_module(step[1])
+        elif step[0] == "declare":
+            declared.update(_declare(step[1], step[2]))
+        else:
+            raise ValueError(step)
+    out = {"lib": _probe_library(), "user": {}}      # _lib() imports whatever has not been imported yet
+    rows = {name: row for g in USER_GROUPS for name, row in user_specs(g)}
+    for name, cls in declared.items():
+        out["user"][name] = [_decode_enc(cls, raw) for raw in history_probes(rows[name])]
+    return out
+
+
+_BASE = {}
+
+
+def _check_history(steps):
+    """-> ([(sig, msg)], number of decodes compared, number of those where the reference says MASK/TMASK)"""
+    import json
+    import os
+    import subprocess
+    import sys
+    from harness.runner import REPO, VERIF
+    env = dict(os.environ, PYTHONHASHSEED="0", VERIF_REPO=REPO, PYTHONPATH=VERIF)
+    r = subprocess.run([sys.executable, "-B", os.path.abspath(__file__), "--history", json.dumps(steps)], env=env,
+                       capture_output=True, text=True, cwd=VERIF)
+    how = "a program that runs %s" % " ; ".join(" ".join(st) for st in steps)
+    if r.returncode != 0:
+        tail = r.stderr.strip().splitlines()[-1:] or [""]
+        if "dali" not in r.stderr:
+            raise RuntimeError("history subprocess failed without the library being involved: " + r.stderr[-1500:])
+        return [("C11:history-raised", "%s fails: %s" % (how, tail[0][:400]))], 0, 0
+    got = json.loads(r.stdout)
+    if not _BASE:
+        _BASE.update(_probe_library())
+    out, n, nflag = [], 0, 0
+    for key in sorted(_BASE):
+        row = RM.BY_KEY[key]
+        there = got["lib"].get(key)
+        if there is None:
+            out.append(("C11:history-value-missing", "%s: value class %s does not exist afterwards" % (how, key)))
+            continue
+        for raw, a, b in zip(history_probes(row), _BASE[key], there):
+            n += 1
+            nflag += RM.decode_tagged(row, raw)[1] in (RM.MASK, RM.TMASK)
+            if a != b:
+                out.append(("C11:decode-depends-on-declaration-history",
+                            "%s: afterwards %s decodes [%s] to %r; in a program that imported the library's modules "
+                            "first it is %r (reference: %r)" % (how, key, _hex(raw), b[-1], a[-1],
+                                                                RM.decode_tagged(row, raw)[1])))
+                break
+    rows = {name: row for g in USER_GROUPS for name, row in user_specs(g)}
+    want = [name for st in steps if st[0] == "declare" for name, _ in user_specs(st[1])]
+    for name in want:
+        row = rows[name]
+        there = got["user"].get(name)
+        if there is None:
+            raise RuntimeError("history subprocess did not report " + name)
+        for raw, b in zip(history_probes(row), there):
+            n += 1
+            ref = RM.decode_tagged(row, raw)
+            nflag += ref[1] in (RM.MASK, RM.TMASK)
+            if b[0] == "raised" or not _accept(_dec(b), ref, row, raw):
+                out.append(("C11:user-declared-value:%s%s" % (row["kind"], "-signed" if row["signed"] else ""),
+                            "%s: the %d-byte %s value %s declared by the program (signed=%s, mask_supported=%s, "
+                            "tmask_supported=%s, max_value=%r) decodes [%s] to %r, reference says %r"
+                            % (how, row["width"], "ScaledNumericValue" if row["kind"] == "scaled" else "NumericValue",
+                               name, row["signed"], row["mask"], row["tmask"], row["max"], _hex(raw), b[-1], ref[1])))
+                break
+    seen = {}
+    for sig, msg in out:
+        seen.setdefault(sig, msg)
+    return list(seen.items()), n, nflag
+
+
+def histories(seed):
+    """Declaration/import histories: the program's declarations before, between and after the library's bank
+    modules, which are imported in several orders (two of them moved by the seed)."""
+    I = lambda m: ["import", "dali.memory." + m]      # noqa
+    D = lambda g, o="up": ["declare", g, o]           # noqa
+    hs = [
+        [D("plain-unsigned"), D("plain-signed"), I("energy"), D("scaled"), I("diagnostics"), I("maintenance"), I("oem"),
+         I("info")],
+        [D("plain-unsigned", "down"), I("diagnostics"), D("plain-signed", "down"), I("maintenance"), D("scaled", "down"),
+         I("info"), I("oem")],
+        [I("energy"), D("scaled"), I("oem"), D("plain-unsigned"), I("diagnostics"), I("maintenance"), I("info")],
+        [D("scaled", "down"), D("plain-unsigned"), I("maintenance"), I("diagnostics"), I("oem"), I("info")],
+        [I("info"), I("oem"), I("energy"), I("diagnostics"), I("maintenance"), D("scaled"), D("plain-signed"),
+         D("plain-unsigned", "down")],
+        [I("maintenance"), D("plain-signed"), I("oem"), D("plain-unsigned"), I("info"), I("energy"), I("diagnostics"),
+         D("scaled")],
+        [D("plain-signed", "down"), D("scaled"), D("plain-unsigned")],
+    ]
+    mods = [m.rsplit(".", 1)[1] for m in LIB_MODULES]
+    for j in range(2):                  # seed-dependent import orders with the declarations at moving positions
+        k = seed * 2 + j
+        order = list(mods)
+        perm = []
+        x = k * 7 + 3
+        while order:
+            perm.append(order.pop(x % len(order)))
+            x = x // len(order or [1]) + k + 1
+        steps = [I(m) for m in perm]
+        for gi, g in enumerate(USER_GROUPS):
+            steps.insert((k + 2 * gi) % (len(steps) + 1), D(g, "down" if (k + gi) % 2 else "up"))
+        hs.append(steps)
+    return hs
 
 
 # ------------------------------------------------------------------ run_case ----
@@ -610,6 +910,8 @@ def run_case(case):
         return _check_import(case["module"])
     if op == "total":
         return _check_total(case["key"], bytes(case["raw"]))
+    if op == "history":
+        return _check_history(case["steps"])[0]
     raise ValueError(op)
 
 
@@ -619,11 +921,21 @@ def _usable(key):
     return cls is not None and row is not None and len(cls.locations) == row["width"]
 
 
-def _enum_decode(res, key, raws, nt_fingerprint=False):
-    """Run the decode check over an iterable of byte strings (distinct by construction)."""
+def _enum_decode(res, key, raws, nt_fingerprint=False, rotate=None):
+    """Run the decode check over an iterable of byte strings (distinct by construction).  rotate=k: every byte
+    string is decoded from ONE spelling of the bank image, taking turns (starting with FORMS[k]); otherwise from
+    all of them."""
     cls, row = _resolve(key)
+    nf = len(FORMS)
     for raw in raws:
         res.count()
+        if rotate is not None:
+            forms = (FORMS[rotate % nf],)
+            rotate += 1
+            res.hist["bank-image-as:" + forms[0]] += 1
+        else:
+            forms = FORMS
+            res.hist["bank-image-as:every-form"] += 1
         ref = RM.decode_tagged(row, raw)
         if _nontrivial(row, raw, ref):
             if nt_fingerprint:   # same fingerprint form as the Hypothesis cases, so overlaps are not counted twice
@@ -631,7 +943,7 @@ def _enum_decode(res, key, raws, nt_fingerprint=False):
             else:
                 res.nontrivial()
         res.hist[_refclass(ref)] += 1
-        vs = _check_decode(cls, row, raw)
+        vs = _check_decode(cls, row, raw, forms)
         for sig, msg in vs:
             res.violation(sig, {"op": "decode", "key": key, "raw": list(raw)}, msg)
 
@@ -710,7 +1022,7 @@ def _shard(arg):
         else:       # strided sweep: the boundary set is covered (and counted) by the "wide" shard of this value
             skip = set(boundary_raws(row))
             raws = (b for b in (v.to_bytes(w, "big") for v in range(lo, hi, stride)) if b not in skip)
-        _enum_decode(res, key, raws)
+        _enum_decode(res, key, raws, rotate=(lo // 251 + w) % len(FORMS))
         if lo == 0 and stride == 1:
             res.label("kind:" + row["kind"] + ("-signed" if row["signed"] else ""))
             res.sample({"op": "decode", "key": key, "raw": list((0xFFFE & ((1 << 8 * w) - 1)).to_bytes(w, "big"))},
@@ -719,7 +1031,7 @@ def _shard(arg):
     elif kind == "wide":          # boundary set + Hypothesis for values wider than 2 bytes
         _, key, seed, n = arg
         cls, row = _resolve(key)
-        _enum_decode(res, key, boundary_raws(row), nt_fingerprint=True)
+        _enum_decode(res, key, boundary_raws(row), nt_fingerprint=True, rotate=seed % len(FORMS))
         res.label("kind:" + row["kind"] + ("-signed" if row["signed"] else ""))
         from harness.hyp import search
         strat = _hyp_raw_strategy(row).map(lambda b: {"op": "decode", "key": key, "raw": list(b)})
@@ -854,6 +1166,16 @@ def _shard(arg):
             res.violation(sig, case, msg)
         search(strat, run_case, res, n, seed, ID)
         res.label("image:" + bk)
+    elif kind == "history":
+        _, steps = arg
+        case = {"op": "history", "steps": steps}
+        vs, n, nflag = _check_history(steps)
+        res.count(n)
+        res.nontrivial(n=nflag)
+        res.label("history:" + ("declarations-first" if steps[0][0] == "declare" else "imports-first"), n)
+        for sig, msg in vs:
+            res.violation(sig, case, msg)
+        res.sample(case, cls="history")
     else:
         raise ValueError(kind)
     return res
@@ -895,7 +1217,8 @@ def run(ctx):
         if bk in L["banks"]:
             heavy.append(("image", bk, seed * 1000 + 900 + i, n_img))
     light.append(("layout",))
-    ctx.pmap(_shard, heavy + light)
+    hist = [("history", steps) for steps in histories(seed)]
+    ctx.pmap(_shard, hist + heavy + light)
     r = ctx.result
     r.exhaustive = False
     r.extra["table"] = RM.trust_counts()
@@ -905,3 +1228,12 @@ def run(ctx):
     r.extra["stride_3_byte"] = stride3
     r.extra["hypothesis_examples_per_wide_value"] = n_hyp
     r.extra["synthetic_signed_values"] = sorted(S["rows"])
+    r.extra["declaration_import_histories"] = len(hist)
+    r.extra["bank_image_forms"] = list(FORMS)
+
+
+if __name__ == "__main__":
+    import json
+    import sys
+    if "--history" in sys.argv:
+        print(json.dumps(history_main(json.loads(sys.argv[sys.argv.index("--history") + 1]))))
